@@ -566,23 +566,30 @@ pub fn hash_and_sign_event<K>(
 where
     K: KeyPair,
 {
-    let hash = content_hash(object)?;
+    let hash = CanonicalJsonValue::String(content_hash(object)?.encode());
 
-    let hashes_value = object
-        .entry("hashes".to_owned())
-        .or_insert_with(|| CanonicalJsonValue::Object(BTreeMap::new()));
+    if object.get("hashes").is_some_and(|hashes| !matches!(hashes, CanonicalJsonValue::Object(_))) {
+        return Err(JsonError::not_of_type("hashes", JsonType::Object));
+    }
 
-    match hashes_value {
-        CanonicalJsonValue::Object(hashes) => {
-            hashes.insert("sha256".into(), CanonicalJsonValue::String(hash.encode()))
+    let set_hash = |object: &mut CanonicalJsonObject, hash| {
+        let hashes_value = object
+            .entry("hashes".to_owned())
+            .or_insert_with(|| CanonicalJsonValue::Object(BTreeMap::new()));
+
+        if let CanonicalJsonValue::Object(hashes) = hashes_value {
+            hashes.insert("sha256".into(), hash);
         }
-        _ => return Err(JsonError::not_of_type("hashes", JsonType::Object)),
     };
 
-    let mut redacted = redact(object.clone(), redaction_rules, None)?;
+    // Sign a redacted copy, the object is only changed when nothing can fail anymore.
+    let mut redacted = object.clone();
+    set_hash(&mut redacted, hash.clone());
+    let mut redacted = redact(redacted, redaction_rules, None)?;
 
     sign_json(entity_id, key_pair, &mut redacted)?;
 
+    set_hash(object, hash);
     object.insert("signatures".into(), mem::take(redacted.get_mut("signatures").unwrap()));
 
     Ok(())
